@@ -5,6 +5,7 @@ sanitized C++ driver per case (cppdrv), and offers command generators and runner
 driver crashes (a sanitizer report / CHECK abort kills the process: the offending command is
 recorded and the rest of the list is re-run).
 """
+import collections
 import glob
 import os
 
@@ -94,6 +95,27 @@ def make_cases(chk, r, n_random, testdata=TESTDATA, corpus_prop=None, null_order
             c.max_size[si.name] = _max_size(si)
         good.append(c)
     return good, dist
+
+
+def generated_cases(modules, prefix, dist):
+    """Cases for already generated embgen modules (same preparation as make_cases)."""
+    good = []
+    for i, m in enumerate(modules):
+        c = Case("%s/%d" % (prefix, i), m.text, gen=m)
+        dist.add(m)
+        p = cppdrv.prepare(c.text)
+        if not p.ok:
+            dist.reject(repr(p.exception) if p.exception else (p.errors[0][0][3] if p.errors else "?"))
+            continue
+        c.prepared = p
+        try:
+            c.sexpr, c.unsupported = irpack.pack(p)
+        except Exception as e:  # noqa: BLE001
+            c.sexpr, c.unsupported = None, {"*": repr(e)}
+        for si in p.structs.values():
+            c.max_size[si.name] = _max_size(si)
+        good.append(c)
+    return good
 
 
 def build_cases(cases, features, std="c++14", compiler="g++", defines=(), opt="-O0", workers=8,
@@ -465,3 +487,88 @@ def reference_obs(case, si, params, data):
         return None
     embref.set_default_byte_order(case.gen.byte_order)
     return embref.observe(s, params, data)
+
+
+def coverage_pair_commands(r, case, stats, n_random_bases=2, cap=40, per_class=None, roots=None, n_det_bases=4):
+    """EQ (and CP for a sample) commands over pairs of buffers that differ in exactly one bit, the
+    expected answer derived from the reference's knowledge of which bits a present field covers
+    (embref.classify_bits): one *uncovered* bit flipped -> Equals must be true; one *covered* bit
+    flipped -> Equals must be false.  Only generated (embgen) cases have a reference.  Bases: a
+    deterministic family (zeros / 0xFF / a fixed pattern, control bytes forced to small counts) plus
+    `n_random_bases` seeded ones; with per_class=None every classified bit of every base is used
+    (exhaustive), otherwise at most `per_class` bits per (class, nesting depth, in-array) bucket.
+    `stats` (a Counter) receives the distribution: class x depth x inside-array-element."""
+    out = []
+    if case.gen is None:
+        return out
+    embref.set_default_byte_order(case.gen.byte_order)
+    for si in (roots if roots is not None else case.roots()):
+        s = gen_struct_of(case, si)
+        if s is None or si.params:
+            continue
+        ms = case.max_size.get(si.name)
+        length = min(cap, ms if ms is not None else cap)
+        if length <= 0:
+            continue
+        # deterministic bases: whole-buffer fills with small values (every count byte small), then
+        # high fills repaired by the reference: the first (byte 0, byte j) := small making the view Ok
+        det = [bytes([v] * length) for v in (0, 1, 2, 3)]
+        for fill in (0xFF, 0xA5):
+            found = None
+            for ctl in (1, 2):
+                for j_ in range(length):
+                    b = bytearray([fill] * length)
+                    b[0] = b[j_] = ctl
+                    if embref.observe(s, [], bytes(b))["ok"] is True:
+                        found = bytes(b)
+                        break
+                if found:
+                    break
+            if found:
+                det.insert(1, found)
+        rnd = []
+        for b in embgen.buffers(r, 2 + 6 * n_random_bases, length)[2:]:
+            rnd.append(bytes([r.choice([0, 1, 2, 3])]) + b[1:])
+        used_det = used_rnd = 0
+        for origin, b in [("det", x) for x in det] + [("rnd", x) for x in rnd]:
+            if origin == "det" and used_det >= n_det_bases:
+                continue
+            if origin == "rnd" and used_rnd >= n_random_bases:
+                break
+            base, bits = embref.classify_bits(s, [], b)
+            if base is None:
+                stats["cov_base_not_ok"] += 1
+                continue
+            size = base["size"] if base["size"] is not None else len(b)
+            if len(b) > size + 1:
+                # keep one byte after the structure's own size (never compared), drop the rest
+                b = b[:size + 1]
+                base, bits = embref.classify_bits(s, [], b)
+                if base is None:
+                    continue
+            if origin == "det":
+                used_det += 1
+            else:
+                used_rnd += 1
+            stats["cov_bases_" + origin] += 1
+            buckets = collections.Counter()
+            order = list(bits)
+            if per_class is not None:
+                r.shuffle(order)
+            for bit, cls, (path, depth, in_arr) in order:
+                if cls is None:
+                    stats["cov_bit_unclassified"] += 1
+                    continue
+                if bit // 8 >= size:
+                    cls = "beyond_size"       # bytes after the structure's own size: never compared
+                key = "cov_%s_depth%d%s" % (cls, depth, "_in_array_elem" if in_arr else "")
+                buckets[key] += 1
+                if per_class is not None and buckets[key] > per_class:
+                    continue
+                stats[key] += 1
+                b2 = bytearray(b)
+                b2[bit // 8] ^= 1 << (bit % 8)
+                out.append("EQ %s %s %s" % (si.name, b.hex(), bytes(b2).hex()))
+                if buckets[key] <= 1:
+                    out.append("CP %s %s %s" % (si.name, b.hex(), bytes(b2).hex()))
+    return out
